@@ -27,7 +27,7 @@ HARNESSES = [
 OUTSIDE = ['source dims other than 2/3 at the view level (dim 4 only in thorough index-level queries)', 'extents > 4', 'compile-time (constant) axes/shapes: see C09',
            'squeeze of an all-ones shape (0-d result) is not asserted', 'invalid arguments: see C15']
 CLAIM = dict(
- text='For hybrid 2-d/3-d source arrays with every extent, every argument (targets incl. each position of a single -1, every axis permutation, '
+ text='For hybrid 2-d/3-d source arrays with every extent, every argument (targets incl. each position of a single -1, every axis permutation - also written with negative entries -, '
       'every possibly negative axis), all element data and the result index symbolic, the solver shows that reshape, flatten, transpose (explicit/default), '
       'moveaxis, swapaxes, expand_dims, squeeze, atleast_nd and flip (axis / None) return NumPy\'s shape and NumPy\'s element, and that '
       'transpose by p then p^-1 and flip twice restore the array.',
